@@ -303,3 +303,111 @@ def shape_in_grammar(s: str) -> bool:
     if any(k is None for k in kinds):
         return False
     return sum(1 for k in kinds if k in ("anon", "star")) <= 1
+
+
+# ---- reference parser (precedence climbing over the documented grammar) -----------------------------------
+
+
+def parse_expr(s: str):
+    """AST of an expression string of the documented grammar, or None when it is outside the grammar."""
+    toks = _lex(s)
+    if "=" in toks or " " in s or not toks:
+        return None
+    pos = [0]
+
+    def peek():
+        return toks[pos[0]] if pos[0] < len(toks) else None
+
+    def operand():
+        t = peek()
+        if t is None:
+            return None
+        if t == "(":
+            pos[0] += 1
+            e = level(1)
+            if e is None or peek() != ")":
+                return None
+            pos[0] += 1
+            return ("paren", e)
+        if isinstance(t, tuple):
+            w = t[1]
+            pos[0] += 1
+            if w in _FUNCS:
+                if peek() != "(":
+                    return None
+                pos[0] += 1
+                a = level(1)
+                if a is None:
+                    return None
+                if _FUNCS[w] == 2:
+                    if peek() != ",":
+                        return None
+                    pos[0] += 1
+                    b = level(1)
+                    if b is None or peek() != ")":
+                        return None
+                    pos[0] += 1
+                    return ("fun2", w, a, b)
+                if peek() != ")":
+                    return None
+                pos[0] += 1
+                return ("isqrt", a)
+            if w.isascii() and w.isdigit():
+                return ("lit", int(w))
+            if _IDENT.match(w):
+                return ("var", w)
+        return None
+
+    def level(lv: int):
+        if lv > 3:
+            return operand()
+        e = level(lv + 1)
+        while e is not None and peek() in INFIX and INFIX[peek()] == lv:
+            o = peek()
+            pos[0] += 1
+            r = level(lv + 1)
+            if r is None:
+                return None
+            e = ("bin", o, e, r)
+        return e
+
+    e = level(1)
+    if e is None or pos[0] != len(toks):
+        return None
+    return e
+
+
+def dims_from_string(shape: str | None) -> list[dict] | None:
+    """Specification-level reading of a shape string (None when outside the grammar)."""
+    if shape is None:
+        return []
+    out = []
+    for d in shape.split():
+        if d == "...":
+            out.append({"k": "anon", "s": d})
+        elif d.startswith("*") and _IDENT.match(d[1:]) and d[1:] not in _FUNCS:
+            out.append({"k": "star", "x": d[1:], "s": d})
+        else:
+            name, body = (d.split("=", 1) if "=" in d else (None, d))
+            if name is not None and not _IDENT.match(name):
+                return None
+            e = parse_expr(body)
+            if e is None:
+                return None
+            if name is None:
+                if e[0] == "lit":
+                    out.append({"k": "lit", "n": e[1], "s": d})
+                elif e[0] == "var":
+                    out.append({"k": "name", "x": e[1], "s": d})
+                else:
+                    out.append({"k": "expr", "e": e, "s": d})
+            else:
+                if name in variables(e):
+                    return None
+                if e[0] == "lit":
+                    out.append({"k": "namelit", "x": name, "n": e[1], "s": d})
+                else:
+                    out.append({"k": "nameexpr", "x": name, "e": e, "s": d})
+    if sum(1 for d in out if d["k"] in ("anon", "star")) > 1 or not out:
+        return None
+    return out
